@@ -1,7 +1,9 @@
 package main
 
 import (
+	"bytes"
 	"go/ast"
+	"go/printer"
 	"go/token"
 	"go/types"
 	"strings"
@@ -337,4 +339,13 @@ func nodeAt(d *declInfo, fi fieldInit) ast.Node {
 		return d.fd.Body
 	}
 	return found
+}
+
+// exprText prints an expression in full (types.ExprString elides composite literals).
+func exprText(fset *token.FileSet, e ast.Expr) string {
+	var b bytes.Buffer
+	if err := printer.Fprint(&b, fset, e); err != nil {
+		return types.ExprString(e)
+	}
+	return strings.Join(strings.Fields(b.String()), " ")
 }
